@@ -38,6 +38,8 @@ def exc_code(exc):
         return -32
     if isinstance(exc, TypeError):
         return -33
+    if isinstance(exc, DeletedObjectError):
+        return -34
     return ERR_OTHER
 
 
@@ -54,7 +56,8 @@ def enc_val(v):
 class World:
     MODEL = "M"
 
-    def __init__(self, defs, maxdepth=None, recalc=False, formula_error=True):
+    def __init__(self, defs, maxdepth=None, recalc=False, formula_error=True,
+                 track_handles=False):
         """defs: JSON form of the spec's D (see MxSem.tla), plus "flib"."""
         for m in list(mx.get_models().values()):
             m.close()
@@ -67,6 +70,9 @@ class World:
         mx.set_recalc(bool(recalc))
         mx.use_formula_error(formula_error)
         self.src2fid = {}
+        self.track_handles = track_handles
+        self.handles = []
+        self._handle_ids = {}
         self.rec = FormulaRecorder(self._node_of_frame)
         self.rec.start()
         self.m = mx.new_model(self.MODEL)
@@ -88,6 +94,8 @@ class World:
     # ------------------------------------------------------------------
     # building
     def src(self, fid, name):
+        if self.flib[fid].get("bad"):
+            return "def %s(:\n    return 1" % name
         s = cz.render(self.flib[fid], name, self.sigs)
         self.src2fid[(s.strip(), name)] = fid
         return s
@@ -154,7 +162,16 @@ class World:
             return self.space(o[1], o[2]).cells[o[3]]
         if tag == "mo":
             return self.m
+        if tag == "dead":
+            return self._dead_handle()
         raise ValueError(o)
+
+    def _dead_handle(self):
+        if getattr(self, "_dead", None) is None:
+            tmp = self.m.new_space("ZZdead")
+            self._dead = tmp
+            delattr(self.m, "ZZdead")
+        return self._dead
 
     def enc_obj(self, v):
         if isinstance(v, Interface):
@@ -271,7 +288,84 @@ class World:
         if deep:
             post["defs"] = self.project_defs()
             post["deps"] = self.project_deps()
+        if self.track_handles:
+            self.take_handles()
+            post["handles"] = self.probe_handles()
         return post
+
+    # ------------------------------------------------------------------
+    # handles (C13): every object ever seen is kept and probed after every operation
+    def take_handles(self):
+        seen = self._handle_ids
+
+        def add(kind, obj):
+            if id(obj) not in seen:
+                seen[id(obj)] = len(self.handles)
+                self.handles.append((kind, obj))
+        for s in self.all_spaces():
+            add("space", s.interface)
+            for c in s.cells.values():
+                add("cells", c.interface)
+
+    def probe_handles(self):
+        """For every handle: dead (every probe raises DeletedObjectError), current (it is
+        the object found at the path it reports) or orphan (alive but not reachable)."""
+        out = []
+        for hid, (kind, h) in enumerate(self.handles):
+            probes = (lambda: h.name, lambda: h.fullname, lambda: h.parent,
+                      lambda: h.model, lambda: h.doc,
+                      (lambda: h.formula) if kind == "cells" else (lambda: h.cells),
+                      (lambda: h.parameters) if kind == "cells" else (lambda: h.spaces))
+            dead = 0
+            for pr in probes:
+                try:
+                    pr()
+                except DeletedObjectError:
+                    dead += 1
+                except Exception:
+                    pass
+            if dead == len(probes):
+                out.append([hid, kind, "dead", [], [], ""])
+                continue
+            if dead:
+                out.append([hid, kind, "halfdead", [], [], ""])
+                continue
+            state = "orphan"
+            path, steps, name = [], [], ""
+            try:
+                impl = h._impl
+                if kind == "cells":
+                    path, steps = self.enc_space(impl.parent)
+                    name = impl.name
+                    cur = self.space(path, steps).cells.get(name) if self._has_space(path, steps) else None
+                else:
+                    path, steps = self.enc_space(impl)
+                    cur = self.space(path, steps) if self._has_space(path, steps) else None
+                if cur is h:
+                    state = "current"
+            except Exception:
+                state = "orphan"
+            out.append([hid, kind, state, path, steps, name])
+        return out
+
+    def _has_space(self, path, steps):
+        """Existence test that never creates an ItemSpace."""
+        obj = self.m
+        try:
+            for nm in path:
+                obj = obj.spaces[nm] if obj is self.m else obj.named_spaces[nm]
+            for st in steps:
+                if st[0] == "i":
+                    key = tuple(st[2])
+                    impl = obj._impl
+                    if key not in impl.param_spaces:
+                        return False
+                    obj = impl.param_spaces[key].interface
+                else:
+                    obj = obj.named_spaces[st[1]]
+            return True
+        except Exception:
+            return False
 
     def fid_of(self, c):
         src = c.formula.source
@@ -285,8 +379,13 @@ class World:
         def walk(s):
             p = s._impl.idstr.split(".")
             sp.append(p)
-            bases.append([p, [b._impl.idstr.split(".") for b in s.bases]])
-            dbases.append([p, [b._impl.idstr.split(".") for b in s._direct_bases]])
+            def bp(b):
+                try:
+                    return b._impl.idstr.split(".")
+                except DeletedObjectError:
+                    return ["!deleted"]
+            bases.append([p, [bp(b) for b in s.bases]])
+            dbases.append([p, [bp(b) for b in s._direct_bases]])
             cs = {}
             for name, c in s.cells.items():
                 cs[name] = {"f": self.fid_of(c._impl), "cached": bool(c.is_cached),
@@ -312,9 +411,18 @@ class World:
         for name, r in self.m._impl.global_refs.items():
             if name != "__builtins__":
                 grefs[name] = {"v": self.enc_obj(r.interface)}
+        import keyword
+        bad = []
+        for p in sp:
+            if not (p[-1].isidentifier() and not p[-1].startswith("_") and not keyword.iskeyword(p[-1])):
+                bad.append(p[-1])
+        for p, cs in cells:
+            for n in cs:
+                if not (n.isidentifier() and not n.startswith("_") and not keyword.iskeyword(n)):
+                    bad.append(n)
         return {"sp": sp, "bases": bases, "dbases": dbases, "cells": cells, "refs": refs,
                 "grefs": grefs, "pf": pf, "span": span, "dir": dirs,
-                "an": bool(self.m._impl.allow_none)}
+                "an": bool(self.m._impl.allow_none), "badnames": sorted(set(bad))}
 
     def project_deps(self):
         """preds/succs/precedents as the public API reports them, for every held element."""
@@ -359,11 +467,11 @@ class World:
             res = getattr(self, "op_" + kind)(op)
         except FormulaError as e:
             err = mx.get_error()
-            ev["res"] = exc_code(err)
+            ev["res"] = exc_code(err) if kind == "call" else "rejected"
             ev["errtype"] = type(err).__name__
             ev["tb"] = self._traceback()
         except (DeepReferenceError, NoneReturnedError) as e:
-            ev["res"] = exc_code(e)
+            ev["res"] = exc_code(e) if kind == "call" else "rejected"
             ev["errtype"] = type(e).__name__
             ev["raw"] = 1
         except DeletedObjectError as e:
@@ -378,6 +486,9 @@ class World:
                 ev["errtype"] = type(e).__name__
         else:
             ev["res"] = res
+            if getattr(self, "_created", None):
+                ev["created"] = self._created
+        self._created = None
         ev["fx"] = [[f[0], f[1]] + ([enc_val(f[2])] if f[0] == "exit" else f[2:])
                     for f in self.rec.take()]
         self.sync()
@@ -483,7 +594,13 @@ class World:
         return "ok"
 
     def op_new_cells(self, op):
-        self._new_cells(self.space(op["s"]), op["c"], op["rec"])
+        c = self._new_cells(self.space(op["s"]), op["c"], op["rec"])
+        if c.name != op["c"]:
+            # modelx silently falls back to the function name / an automatic name
+            # when the requested name is not a valid one
+            self._created = c.name
+            self.sigs.setdefault(c.name, [p[0] for p in self.flib[op["rec"]["f"]]["ps"]])
+            self.src(op["rec"]["f"], c.name)
         return "ok"
 
     def op_del_cells(self, op):
